@@ -252,7 +252,119 @@ func c04Tier(tier string) int {
 	return 250000
 }
 
+// c04Tower: "nested Stacks ... expanded recursively" - however far down. A chain of stacks nested hundreds or thousands
+// deep (alternately as an element and as a Condition's expression) is unmarshalled and the result walked level by level
+// (iteratively) against what was built; the reconstruction is walked the same way and must consist of NEW instances.
+func c04Tower(c *core.Ctx) {
+	r := c.Rng
+	depth := []int{255, 257, 300, 1000, 4095, 4097}[r.Intn(6)]
+	if r.Chance(1, 4) {
+		depth = r.Range(9995, 10060)
+	}
+	condEvery := []int{0, 2, 7}[r.Intn(3)]
+	kinds := []string{"AND", "OR", "NOT", "LIST"}
+	levels := make([]stackage.Stack, depth)
+	var below any = "bottom"
+	for k := depth - 1; k >= 0; k-- {
+		s := NewStackArgs(kinds[k%4])
+		s.Push(k)
+		if condEvery > 0 && k%condEvery == 1 && k != depth-1 {
+			s.Push(stackage.Cond("down", stackage.Eq, below))
+		} else {
+			s.Push(below)
+		}
+		levels[k] = s
+		below = s
+	}
+	desc := map[string]any{"depth": depth, "condition_every": condEvery}
+	var u []any
+	var err error
+	if p, msg, site := Guard(func() { u, err = levels[0].Unmarshal() }); p || err != nil {
+		c.Violatef("tower:unmarshal", desc, "Unmarshal of a chain %d levels deep: panic=%v (%s %s) err=%v", depth, p, msg, site, err)
+		return
+	}
+	// walk the serialised form
+	cur := u
+	for k := 0; k < depth; k++ {
+		if len(cur) != 3 || !strings.EqualFold(fmt.Sprint(cur[0]), kinds[k%4]) || cur[1] != k {
+			c.Violatef("tower:shape", desc, "level %d of the serialised form is %s, expected [%s %d <next level>]", k, Show(cur), kinds[k%4], k)
+			return
+		}
+		if k == depth-1 {
+			if cur[2] != "bottom" {
+				c.Violatef("tower:shape", desc, "the innermost entry is %s", Show(cur[2]))
+				return
+			}
+			break
+		}
+		next, ok := cur[2].([]any)
+		if !ok {
+			c.Violatef("tower:not-expanded", desc, "level %d of the serialised form holds a %T where the expansion of the next level belongs", k, cur[2])
+			return
+		}
+		if condEvery > 0 && k%condEvery == 1 {
+			// [CONDITION down = <expression>]
+			if len(next) != 4 || !strings.EqualFold(fmt.Sprint(next[0]), "CONDITION") {
+				c.Violatef("tower:shape", desc, "level %d: expected a CONDITION row, found %s", k, Show(next))
+				return
+			}
+			inner, ok := next[3].([]any)
+			if !ok {
+				c.Violatef("tower:not-expanded", desc, "level %d: the Condition's expression is serialised as a %T, not as the expansion of the next level", k, next[3])
+				return
+			}
+			next = inner
+		}
+		cur = next
+	}
+	var rec stackage.Stack
+	if p, msg, site := Guard(func() { err = rec.Marshal(u...) }); p || err != nil {
+		c.Violatef("tower:marshal", desc, "Marshal of the serialised chain: panic=%v (%s %s) err=%v", p, msg, site, err)
+		return
+	}
+	orig := map[uintptr]bool{}
+	for _, s := range levels {
+		d, _ := stackage.VerifDump(s)
+		orig[d.HdrAddr] = true
+	}
+	at := rec
+	for k := 0; k < depth; k++ {
+		d, _ := stackage.VerifDump(at)
+		if orig[d.HdrAddr] {
+			c.Violatef("tower:reconstruction-shares-original", desc, "level %d of the reconstruction IS the original's instance (nothing was reconstructed from there on)", k)
+			return
+		}
+		if !strings.EqualFold(at.Kind(), kinds[k%4]) || at.Len() != 2 {
+			c.Violatef("tower:reconstruction", desc, "level %d of the reconstruction is a %s of %d elements", k, at.Kind(), at.Len())
+			return
+		}
+		if k == depth-1 {
+			break
+		}
+		v, _ := at.Index(1)
+		if cd, ok := AsCond(v); ok {
+			v = cd.Expression()
+		}
+		ns, ok := AsStack(v)
+		if !ok {
+			c.Violatef("tower:reconstruction", desc, "level %d of the reconstruction holds %s where the next level belongs", k, Show(v))
+			return
+		}
+		at = ns
+	}
+	if e := levels[0].IsEqual(rec); e != nil {
+		c.Violatef("tower:is-equal", desc, "IsEqual(original, reconstruction) = %v", e)
+		return
+	}
+	c.Count("towers")
+	c.NontrivialStr(fmt.Sprintf("tower|%d|%d", depth>>5, condEvery))
+}
+
 func c04Run(c *core.Ctx, idx int) {
+	if idx%5000 == 2500 {
+		c04Tower(c)
+		return
+	}
 	r := c.Rng
 	tree := c04Gen.Gen(r)
 	withCapOrFold := false
